@@ -105,7 +105,7 @@ def step (d : DS) (line : String) : DS × String :=
     match rest.mapM nat? with
     | some (cb :: order) =>
       match endBlock d.p d.s cb (pairs order) with
-      | (s, .ok) => ({ d with s := s }, s!"ok {s.lost} {s.lostDel}")
+      | (s, .ok) => ({ d with s := s }, s!"ok {s.lost} {s.lostDel} {s.lostOther}")
       | (s, .crash) => ({ d with s := s }, "crash")
     | _ => (d, "bad-op")
   | ["DUMP"] => (d, dump d.s)
